@@ -357,7 +357,36 @@ def run_C16(ctx):
     s, n = sizes(ctx, (6, 250), (300, 1000))
     api_correspondence(ctx, ['hooks'], s, n, proj_hooks, None, 'C16 destructor log')
 
+def c19_value_pool(ctx):
+    """every float/int boundary value written under scientific notation on/off x every precision class
+    (thorough: all 64 option words), tab widths 0..16, both default formats"""
+    def fn(impl, rng, stats):
+        impl.do('init')
+        impl.do('add / %s 1' % hexs(b'g'))
+        i = 0
+        for b in gen_api.DBL_POOL:
+            impl.do('add /0 %s 4' % hexs(b'f%d' % i)); impl.do('set_float /0/%d %016x' % (i, b)); i += 1
+        for v in gen_api.INT64_POOL:
+            big = not (-2**31 <= v < 2**31)
+            impl.do('add /0 %s %d' % (hexs(b'i%d' % i), 3 if big else 2)); impl.do('set_int%s /0/%d %d' % ('64' if big else '', i, v))
+            if i % 3 == 0:
+                impl.do('set_format /0/%d 1' % i)
+            i += 1
+        impl.do('add /0 %s 1' % hexs(b'deep')); impl.do('add /0/%d %s 1' % (i, hexs(b'er'))); impl.do('add /0/%d/0 %s 8' % (i, hexs(b'l')))
+        impl.do('add /0/%d/0/0 - 1' % i); impl.do('add /0/%d/0/0/0 %s 5' % (i, hexs(b's')))
+        words = range(64) if ctx['tier'] == 'thorough' else [0x20 | rng.below(64), rng.below(64) & ~0x20, rng.below(64)]
+        for o in words:
+            impl.do('set_options %d' % o)
+            for prec in (0, 1, 2, 6, 15):
+                impl.do('set_float_precision %d' % prec)
+                impl.do('set_tab_width %d' % rng.choice(range(17)))
+                impl.do('set_default_format %d' % rng.below(2))
+                impl.do('write')
+                stats['c19:pool-write'] = stats.get('c19:pool-write', 0) + 1
+    correspondence(ctx, [fn], proj_write, None, 'C19 writer output', 'value-pool')
+
 def run_C19(ctx):
+    c19_value_pool(ctx)
     s, n = sizes(ctx, (5, 200), (300, 800))
     api_correspondence(ctx, ['write'], s, n, proj_write, None, 'C19 writer output')
 
@@ -576,6 +605,12 @@ def run_C13(ctx):
                 impl.do('alloccase %d %d %d' % (sc, k, n))
                 expect[len(impl.ops) - 1] = ('handler' if k < n else 'normal-same', sc, k, n)
                 stats['c13:scenario%d' % sc] = stats.get('c13:scenario%d' % sc, 0) + 1
+            # two failures in one process with a handler that does not return (longjmp, like the C++ API's throw)
+            for k in ([0, 1, n // 2, n - 1] if ctx['tier'] == 'quick' else range(n)):
+                if 0 <= k < n:
+                    impl.do('allocdouble %d %d %d' % (sc, k, n))
+                    expect[len(impl.ops) - 1] = ('handler handler', sc, k, n)
+                    stats['c13:double%d' % sc] = stats.get('c13:double%d' % sc, 0) + 1
     def oracle(ops, outs):
         for i, (want, sc, k, n) in expect.items():
             if i < len(outs) and outs[i] != want:
@@ -591,6 +626,7 @@ def run_C13(ctx):
 def run_C14(ctx):
     def fn(impl, rng, stats):
         cases = [(2, 3), (4, 3), (8, 4), (16, 2)] if ctx['tier'] == 'quick' else [(2, 20), (4, 20), (8, 20), (16, 10), (16, 30), (3, 50)]
+        impl.do('thrcase 8 2 %d 1' % rng.below(1 << 30))     # the very first use of the library is concurrent
         for nt, rounds in cases:
             for rep in range(2 if ctx['tier'] == 'quick' else 5):
                 impl.do('thrcase %d %d %d' % (nt, rounds, rng.below(1 << 30)))
@@ -613,11 +649,11 @@ REGISTRY = {
     'C14': dict(modules=['LibconfigModel.Properties.C14'], run=run_C14, assumptions=COMMON_ASSUMPTIONS + ['the C memory model and races inside libc are outside the model; ThreadSanitizer observes executed paths only', 'config_set_fatal_error_func is not called concurrently (it writes the only mutable static object)']),
     'C13': dict(modules=['LibconfigModel.Properties.C13'], run=run_C13, assumptions=COMMON_ASSUMPTIONS + ['what the process does after a handler that returns is documented as undefined and not examined', 'allocations inside libc (fopen, newlocale, stdio buffers) are not the library\'s own and are not failed']),
     'C18': dict(modules=['LibconfigModel.Properties.C18'], run=run_C18, assumptions=COMMON_ASSUMPTIONS + ['the generic flex matching loop (Flex.lean) is a hand-written model of the skeleton flex emits for every scanner; it is tied by the lex correspondence']),
-    'C20': dict(modules=['LibconfigModel.Properties.C20'], run=run_C20, assumptions=COMMON_ASSUMPTIONS + ['the pointer arithmetic of yy_get_next_buffer (generated flex code) is outside the model; it is exercised at the 8/16/32 KiB boundaries under ASan']),
+    'C20': dict(modules=['LibconfigModel.Properties.C20', 'LibconfigModel.Properties.C20File'], run=run_C20, assumptions=COMMON_ASSUMPTIONS + ['the pointer arithmetic of yy_get_next_buffer (generated flex code) is outside the model; it is exercised at the 8/16/32 KiB boundaries under ASan']),
     'C15': dict(modules=['LibconfigModel.Properties.C15'], run=run_C15, assumptions=COMMON_ASSUMPTIONS + ['the comma-decimal locale is synthesised from C.utf8 by patching the radix byte of LC_NUMERIC (the sandbox has no other locales)', 'glibc newlocale with a NULL base yields the "C" locale in every category']),
     'C12': dict(modules=['LibconfigModel.Properties.C12'], run=run_C12, assumptions=COMMON_ASSUMPTIONS + ['stdio reports a failed write(2) through fflush()/ferror(); a successful fclose() means the kernel accepted all data']),
     'C09': dict(modules=['LibconfigModel.Properties.C09'], run=run_C09, assumptions=COMMON_ASSUMPTIONS),
-    'C08': dict(modules=['LibconfigModel.Properties.C08'], run=run_C08, assumptions=COMMON_ASSUMPTIONS),
+    'C08': dict(modules=['LibconfigModel.Properties.C08', 'LibconfigModel.Properties.C08Float'], run=run_C08, assumptions=COMMON_ASSUMPTIONS),
     'C02': dict(modules=['LibconfigModel.Properties.C02', 'LibconfigModel.Properties.C02Complete'], run=run_C02, assumptions=COMMON_ASSUMPTIONS),
     'C04': dict(modules=['LibconfigModel.Properties.C04', 'LibconfigModel.Properties.C04Read'], run=run_C04, assumptions=COMMON_ASSUMPTIONS),
     'C05': dict(modules=['LibconfigModel.Properties.C05'], run=run_C05, assumptions=COMMON_ASSUMPTIONS),
